@@ -20,6 +20,8 @@ type LogRecord struct {
 	message    string
 }
 
+const maxJournalLine = 1 << 30
+
 type Reflog struct {
 	records []*LogRecord
 }
@@ -48,6 +50,8 @@ func (r *Reflog) load(rootGoitPath string, head *Head, refs *Refs) error {
 	defer f.Close()
 
 	scanner := bufio.NewScanner(f)
+	// a journal line carries a commit subject of any length
+	scanner.Buffer(make([]byte, 0, 64*1024), maxJournalLine)
 	for scanner.Scan() {
 		record := &LogRecord{
 			references: make([]string, 0),
@@ -96,6 +100,10 @@ func (r *Reflog) load(rootGoitPath string, head *Head, refs *Refs) error {
 		record.message = sp3[1]
 
 		r.records = append(r.records, record)
+	}
+	// a journal that could not be read completely must not be taken for a shorter journal
+	if err := scanner.Err(); err != nil {
+		return fmt.Errorf("fail to read %s: %w", headPath, err)
 	}
 
 	return nil
